@@ -27,7 +27,7 @@ type Case struct {
 	Pl   string `json:"pl"`   // payload, hex
 	Pre  string `json:"pre"`  // comma separated: nover | auth | cv2 (sendcmpct version 2 negotiated) | trusted | ahr | dupsid | ackgot | fulldb | fulldb-1 | fulldb+1 | slow (the peer does not read its socket: the send buffer is never drained) | sbfill=<n> (the send buffer already holds n unsent bytes)
 	Note string `json:"note"` // where the case comes from
-	Seq  []Msg  `json:"seq,omitempty"` // messages delivered before (Cmd, Pl) on the same connection
+	Seq  []Msg  `json:"seq,omitempty"` // messages delivered before (Cmd, Pl) on the same connection; pseudo commands (cfg.go): "@cfg" = the operator changes the configuration of the running node (Pl = JSON fragment, applied the way textui `set_config` / the webui do: unmarshal over CFG + common.Reset() under the config lock), "@tick" = the connection's periodic Tick runs (Pl = seconds the clock is ahead, direct stream only)
 	Conc *ConcSpec `json:"conc,omitempty"` // Cmd "@conc": the concurrent scenario run in a child process (conc.go)
 	Rep  int       `json:"rep,omitempty"`  // the message (Cmd, Pl) is delivered Rep times before the observed delivery (same connection)
 	Child *ChildSpec `json:"child,omitempty"` // Cmd "@child": block parsing in a child process (child.go)
@@ -124,6 +124,8 @@ type Runner struct {
 	pool             *network.OneConnection // a finished run-stream connection object that may be recycled
 	lastRunCollector bool
 	lastRunState     network.VerifState
+	TickBudget       int             // how many whole tick periods the Run stream may still wait for (cfg.go)
+	tickPaid         map[string]bool // (runnable is asked more than once per case)
 }
 
 func NewRunner(e *Env) *Runner { return &Runner{e: e, probes: globalProbes()} }
@@ -147,6 +149,11 @@ func (r *Runner) prepare(cs Case) *network.OneConnection {
 	}
 	c.VerifReset()
 	c.X = network.ConnectionStatus{ConnectedAt: time.Now(), Incomming: true}
+	if cs.reconfigures() {
+		// what Run sets before its loop (a connection that has just received data and is not due for a ping)
+		c.X.LastDataGot = time.Now()
+		c.LastPingSent = time.Now()
+	}
 	c.Node = network.NetworkNodeStruct{}
 	c.InvDone.History = nil
 	c.InvDone.Idx = 0
@@ -155,6 +162,14 @@ func (r *Runner) prepare(cs Case) *network.OneConnection {
 	c.PingInProgress = nil
 	for k := range c.GetBlockInProgress {
 		delete(c.GetBlockInProgress, k)
+	}
+	// a getmp request left pending by an earlier case (signed authack), and the global ticket a Tick of
+	// this object may have taken for it
+	for len(c.GetMP) > 0 {
+		<-c.GetMP
+	}
+	for len(txpool.GetMPInProgressTicket) > 0 {
+		<-txpool.GetMPInProgressTicket
 	}
 	r.preset(c, cs)
 	return c
@@ -240,6 +255,16 @@ func (r *Runner) Do(cs Case) (o Obs) {
 		installDupSid()
 		defer removeDupSid()
 	}
+	if cs.reconfigures() {
+		restoreCfg := saveCfg()
+		defer func() {
+			if !o.Hang { // (a stuck handler may hold the config lock)
+				r.e.quiet()
+				restoreCfg()
+				r.e.loud()
+			}
+		}()
+	}
 	limit := 20 * time.Second
 	switch {
 	case cs.has("fulldb"):
@@ -269,6 +294,18 @@ func (r *Runner) Do(cs Case) (o Obs) {
 	}
 	pan, where, hang, dur, done := call(limit, func() {
 		for _, m := range cs.Seq {
+			switch m.Cmd {
+			case "@cfg":
+				applyCfg(m.Pl)
+				continue
+			case "@tick":
+				// what Run does between two messages every PeerTickPeriod (the argument is Run's `now`)
+				c.Tick(time.Now().Add(time.Duration(tickAhead(m)) * time.Second))
+				if !slow {
+					c.VerifDrainSent()
+				}
+				continue
+			}
 			b, _ := hex.DecodeString(m.Pl)
 			c.VerifDispatch(m.Cmd, b, cs.has("trusted"))
 			if !slow {
@@ -302,6 +339,9 @@ func (r *Runner) Do(cs Case) (o Obs) {
 	o.Panic, o.Where, o.Hang, o.Ms = pan, where, hang, float64(dur.Microseconds())/1000
 	// locks
 	abandon := hang
+	if pan != "" {
+		abandon = true // whatever the panic left half-done in the connection object must not leak into the next case
+	}
 	if !hang {
 		if c.Mutex.TryLock() {
 			c.Mutex.Unlock()
@@ -332,6 +372,9 @@ func (r *Runner) Do(cs Case) (o Obs) {
 		_ = done
 	}
 	sort.Strings(o.Locks)
+	for !hang && len(txpool.GetMPInProgressTicket) > 0 {
+		<-txpool.GetMPInProgressTicket // (taken by a Tick of this case for a pending getmp: the connection object lives on)
+	}
 	if !abandon {
 		st := c.VerifState()
 		r.lastState = st
